@@ -75,6 +75,7 @@ def lexicon_obs(lx):
         'extends': (lx.extends().specifier() if lx.extends() is not None else None),
         'extensions': [x.specifier() for x in lx.extensions()],
         'extensions_all': [x.specifier() for x in lx.extensions(depth=-1)],
+        'modified': lx.modified(),
     }
 
 
